@@ -1082,7 +1082,42 @@ func (k *c10k) invariants() []*c10Invariant {
 						}
 					}
 				})
-				return found
+				if found {
+					return true
+				}
+				// or the index comes from a method of the same histogram every return
+				// of which is <= len(its buckets)
+				call, isCall := s.I.(*ssa.Call)
+				if !isCall {
+					return false
+				}
+				g := call.Common().StaticCallee()
+				if g == nil || g.Blocks == nil || !k.c.P.IsRepoFunc(g) || len(call.Common().Args) == 0 || c.F.E(call.Common().Args[0]) != c.F.E(base) {
+					return false
+				}
+				if k.eng.Sx.MayWrite(g, "f:"+hist+".buckets") || k.eng.Sx.MayWrite(g, "f:"+hist+".counts") {
+					return false
+				}
+				gc := k.eng.Of(g)
+				rets := ssau.ReturnsOf(g)
+				for _, ret := range rets {
+					ok := false
+					ssau.ForEachInstr(g, false, func(in ssa.Instruction) {
+						v, isV := in.(ssa.Value)
+						if !isV || ok {
+							return
+						}
+						if o2, f2, b2, ok2 := fieldLoad(v); ok2 && o2 == hist && f2 == "buckets" && b2 == ssa.Value(g.Params[0]) {
+							if gc.Below(ret.Results[0], v, false, ret.Block()) {
+								ok = true
+							}
+						}
+					})
+					if !ok {
+						return false
+					}
+				}
+				return len(rets) > 0
 			},
 			check: both(
 				func() (bool, string) {
